@@ -44,7 +44,7 @@ class PostBroken(Exception):
     pass
 
 
-HOOK: dict[str, Any] = {"writes": 0, "assigns": 0, "max_size": 0, "broken": None, "limit": None}
+HOOK: dict[str, Any] = {"writes": 0, "assigns": 0, "max_size": 0, "broken": None, "limit": None, "held_after_refusal": None}
 
 
 def write_within_limit(_ARGS, result) -> bool:
@@ -72,7 +72,14 @@ class MonContext(RenderContext):
     __slots__ = ()
 
     def assign(self, key: str, val: Any) -> None:
-        super().assign(key, val)
+        try:
+            super().assign(key, val)
+        except BaseException:
+            # a refused assignment: what the namespace holds from here on is what a render that carries on (lax / warn mode) holds
+            lim = HOOK["limit"]
+            if lim and chain_size(self) > lim and HOOK["held_after_refusal"] is None:
+                HOOK["held_after_refusal"] = (key, chain_size(self), lim)
+            raise
         HOOK["assigns"] += 1
         size = chain_size(self)
         HOOK["max_size"] = max(HOOK["max_size"], size)
@@ -115,7 +122,7 @@ HEAVY = {"output_stream_limit": 4_000_000, "loop_iteration_limit": 300_000, "loc
 
 def run(case, mode, limits, data):
     env = make(case, mode, limits)
-    HOOK.update(writes=0, assigns=0, max_size=0, broken=None, limit=limits.get("local_namespace_limit"))
+    HOOK.update(writes=0, assigns=0, max_size=0, broken=None, held_after_refusal=None, limit=limits.get("local_namespace_limit"))
     o = drv.parse_and_render(env, case["source"], data, use_async=case.get("async", False))
     return o, dict(HOOK)
 
@@ -190,6 +197,12 @@ def judge(ctx: core.Ctx, case: dict[str, Any]) -> None:
                     ctx.violation(f"namespace-exceeds-limit:{kind}", f"local_namespace_limit={M} ({mode}): assign of {key!r} returned normally with {size} bytes of locals along the context chain")
                     if M == 0:
                         break  # a limit of 0 is a separate mechanism; keep judging the other limit values
+                    return
+                if o.ok and h["held_after_refusal"] is not None:
+                    # the render completed (tolerant mode: the refusal was reported and rendering went on) still holding what was refused
+                    key, size, lim = h["held_after_refusal"]
+                    ctx.evaluations += 1
+                    ctx.violation("namespace-exceeds-limit:refused-value-kept", f"local_namespace_limit={M} ({mode}): the assignment of {key!r} was refused with LocalNamespaceLimitError, but the value stayed: the render went on and completed holding {size} bytes of locals")
                     return
     if U > 1 and not case.get("async"):
         # the limit is read when a render starts: the same template object, rendered once without a limit (e.g. to learn the unlimited
